@@ -506,7 +506,7 @@ theorem run_row (F : Facts14) (htable : allRows.all (rowOk F) = true) (c : Cfg) 
       final (methodView r.steps) = .done tr.userRan tr.returned tr.faulted ∧
       transportOk c.transport r.steps tr.faulted = true) := by
   have h := row_of_table F htable
-    ⟨F.leavesNone c.outp c.shape, F.leavesNoneFault c.outp, c.transport, inj.stage, inj.kind, co, ro⟩
+    ⟨F.leavesNone c.outp (effShape c inj), F.leavesNoneFault c.outp, c.transport, inj.stage, inj.kind, co, ro⟩
   obtain ⟨v1, v2, v3⟩ := views_fill F c inj.inner (skelOf F c inj co ro).steps
   obtain ⟨st, k, b⟩ := inj
   simp only [rowOk, Bool.and_eq_true, Bool.or_eq_true, beq_iff_eq] at h
